@@ -646,6 +646,10 @@ func c14Main(seed uint64, n int, outDir, repo string) error {
 		"t = 0; for i = 0; i < 5; i++ { t += i }; t", "probe(1)(2)", "func(a, b, c, d, e) { return e }(1, 2, 3, 4, 5)",
 		"func v(a...) { return len(a) }; v(1, 2, 3) + v([1, 2]...)", "try { throw \"x\" } catch e { probe(e) }", "1000 + 4095 + 4096 - 1",
 		// writes through pointers to computed small integers, booleans, nil and shared literals must stay private to the run
+		// in-place stores into containers nested inside literals must not reach the next run
+		"grid = [[1, 2], [3, 4]]; grid[0][0] = grid[0][0] + 10; grid[1] += 5; grid", "m = {\"a\": [1]}; m.a[0] = m.a[0] + 1; m.b = [m.a]; m",
+		"s = [{\"k\": 1}]; s[0].k = s[0].k + 1; s", "f = func() { return [[0]] }; x = f(); x[0][0] += 1; y = f(); y[0][0] += 1; [x, y]",
+		"t = [[], [[]]]; t[0] += 1; t[1][0] += 2; t", "for i = 0; i < 3; i++ { c = [[0]]; c[0][0] += i; probe(c) }",
 		"n = 0; n++; p = &n; *p = *p + 1; n", "x = 0; x++; x", "n = 3 - 2; p = &n; *p = 41; [n, 0 + 1, 2 - 1]", "b = (1 == 1); p = &b; *p = false; [b, 1 == 1, true]",
 		"s = \"a\" + \"b\"; p = &s; *p = \"zz\"; [s, \"a\" + \"b\"]", "a = [1, 2]; p = &a; *p = [9]; [a, len([1, 2])]", "n = len([7]); p = &n; *p = 5; [n, len([7])]",
 		"v = make(struct { A int64 }); v.A = 1; v.A++; q = &v.A; *q = 30; [v.A, 1 + 1]", "x = nil; p = &x; *p = 1; [x, nil]", "m = {\"k\": 1}; m.k++; p = &m; (*p).k = 5; [m.k, 1 + 1]",
